@@ -47,5 +47,10 @@ for d in sorted(glob.glob(f"{SRC}/C??/m?")):
     if os.path.exists(hist):
         meta["check_history"] = open(hist).read().strip().split("\n")
     meta["checks"] = caught
+    mp = f"{DST}/MATRIX.json"
+    if os.path.exists(mp):
+        row = json.load(open(mp)).get(tag)
+        if row:
+            meta["all_checks_quick_tier"] = {p: {"R": "VIOLATION with replay", "N": "VIOLATION no-failing-input-found", "-": "exit 0"}[v] for p, v in sorted(row.items())}
     json.dump(meta, open(f"{out}/meta.json", "w"), indent=1)
     print(tag, caught)
